@@ -550,7 +550,9 @@ def gen_settings_cases(ctx: Ctx, n: int, n_run: int):
             doc[kind].pop("with_dask", None)
         items = list(doc.items())
         r.shuffle(items)
-        cases.append(dict(k="settings", doc=dict(items), run=bool(runnable), det=det, kind=kind))
+        case = dict(k="settings", doc=dict(items), run=bool(runnable), det=det, kind=kind)
+        case["derive"] = gen_derive_ops(r, case)
+        cases.append(case)
     return cases
 
 
@@ -698,6 +700,217 @@ def parse_details(text: str):
     return out
 
 
+
+# ------------------------------------------------------------------------------------------ derived readouts
+
+RO_KEYS = ["mode.readout.times", "mode.readout.start_time", "mode.readout.non_destructive"]
+DOP = {"replace": "DReplace", "setter": "DSetter", "copy": "DCopy"}
+
+
+def readout_facts(case):
+    """(first readout time, start_time, non_destructive) the document means"""
+    ro = (case["doc"][case["kind"]] or {}).get("readout") or {}
+    t = ro.get("times", [1])
+    first = t[0] if isinstance(t, list) else (float(t.a) if isinstance(t, Expr) else float(t))
+    return float(first), float(ro.get("start_time", 0.0)), bool(ro.get("non_destructive", False))
+
+
+def gen_derive_ops(r, case):
+    """derivations of the loaded readout; new times are always valid for the start time that is kept"""
+    first, start, nd = readout_facts(case)
+    base = max(start, 0.0)
+
+    def new_times():
+        a = base + dy(r, 0.25, 3, 2)
+        k = r.random()
+        if k < 0.35:
+            return a
+        ts = [a]
+        for _ in range(r.randrange(0, 3)):
+            ts.append(ts[-1] + dy(r, 0.25, 2, 2))
+        return ts
+
+    s2 = r.choice([first / 2, first / 4, first / 8, 0.0])
+    if s2 == start:
+        s2 = first * 3 / 4
+    ops = [dict(op="replace", changes={"times": new_times()}),
+           dict(op="setter", changes={"times": new_times()}),
+           dict(op="replace", changes={"start_time": s2}),
+           dict(op="replace", changes={"non_destructive": not nd}),
+           dict(op="replace", changes={"times": new_times(), "non_destructive": not nd}),
+           dict(op="setter", changes={"start_time": s2}),
+           dict(op="setter", changes={"non_destructive": not nd}),
+           dict(op="copy", changes={})]
+    return ops
+
+
+def derive_rows(c, o):
+    """[(op, settings of the loaded readout, changes, observed | None)] for one settings case"""
+    rows = []
+    for op, d in zip(c.get("derive") or [], o.get("derived") or []):
+        before = [(k, d["before"][k]) for k in RO_KEYS]
+        ch = []
+        for k, v in op["changes"].items():
+            if k == "times":
+                v = v if isinstance(v, list) else [v]
+            ch.append((f"mode.readout.{k}", v))
+        obs = None if "settings" not in d else [(k, d["settings"][k]) for k in RO_KEYS]
+        rows.append((op, before, ch, obs, d))
+        # the loaded readout itself must not change under a derivation
+        rows.append((dict(op="copy", changes={}, of=op), before, [], [(k, d["after"][k]) for k in RO_KEYS], d))
+    return rows
+
+
+def emit_derive_file(rows) -> str:
+    out = []
+    for op, before, ch, obs, _ in rows:
+        o = "None" if obs is None else f"(Some {centries(obs)})"
+        out.append(f"DCase {DOP[op['op']]} {centries(before)}\n    {centries(ch)}\n    {o}")
+    body = ";\n  ".join(out)
+    return (HEAD + "Open Scope string_scope.\n" + f"Definition cases : list dcase := [\n  {body}\n].\n"
+            "Eval vm_compute in d_mismatches src_replace_carried cases.\nEval vm_compute in d_violations cases.\n")
+
+
+def plain(v):
+    """message-only normal form of a leaf ({'f': hex} -> float)"""
+    if isinstance(v, dict) and set(v) == {"f"}:
+        return float.fromhex(v["f"])
+    if isinstance(v, (list, tuple)):
+        return [plain(e) for e in v]
+    if isinstance(v, bool) or v is None or isinstance(v, str):
+        return v
+    return float(v)
+
+
+def derive_violation(c, row) -> Violation:
+    op, before, ch, obs, d = row
+    of = op.get("of")
+    changed = sorted(k for k, _ in ch)
+    if of is not None:
+        what = (f"{c['det']}/{c['kind']}: {of['op']}({of['changes']}) on the loaded readout changed the loaded readout "
+                f"itself: before {dict(before)}, after {dict(obs)}")
+        sig = dict(clause="derived_keeps", op=of["op"], aspect="original-modified")
+    elif obs is None:
+        what = (f"{c['det']}/{c['kind']}: readout.{op['op']}({op['changes']}) on the loaded readout {dict(before)} raised "
+                f"{d.get('raised')}: {d.get('msg')}")
+        sig = dict(clause="derived_keeps", op=op["op"], changed=changed, aspect="valid-change-refused")
+    else:
+        want = dict(before)
+        want.update(dict(ch))
+        differs = sorted(k for k in RO_KEYS if plain(dict(obs)[k]) != plain(want[k]))
+        what = (f"{c['det']}/{c['kind']}: readout.{op['op']}({op['changes']}) on the loaded readout "
+                f"{ {k: plain(v) for k, v in before} } gives { {k: plain(v) for k, v in obs} }: {differs} differ from "
+                f"<unchanged settings kept, changed settings set>")
+        sig = dict(clause="derived_keeps", op=op["op"], changed=changed, aspect="setting-lost")
+    return Violation(clause="derived_keeps", case=dict(jcase(c), derive=[of or op]), observed=d,
+                     expected="a derived readout keeps every setting that was not changed and has the new value of "
+                              "the changed ones; the loaded readout is left alone",
+                     what=what, sig=sig)
+
+
+def run_derived(ctx: Ctx, pairs, tag="d"):
+    rows = []
+    for c, o in pairs:
+        for row in derive_rows(c, o):
+            rows.append((c, row))
+    if not rows:
+        return [], []
+    per = 200
+    files = {f"{tag}_{k // per:03d}": emit_derive_file([r for _, r in rows[k:k + per]]) for k in range(0, len(rows), per)}
+    ev = eval_files(ctx, files)
+    mism, viol = [], []
+    for k, name in enumerate(sorted(files)):
+        if ev[name] is None:
+            continue
+        chunk = rows[k * per:(k + 1) * per]
+        mism += [chunk[i] for i in core.parse_int_list(ev[name][0])]
+        viol += [chunk[i] for i in core.parse_int_list(ev[name][1])]
+    for c, row in rows:
+        if row[0].get("of") is None:
+            ctx.count("evaluations")
+            ctx.count("derived_readouts")
+            ctx.dist("derive_op", row[0]["op"] + "(" + ",".join(sorted(row[0]["changes"])) + ")")
+            ctx.dist("derive_outcome", "raised" if row[3] is None else "derived")
+    return mism, viol
+
+
+# ------------------------------------------------------------------------------------------ sweep over the readout times
+
+
+def gen_sweep_cases(ctx: Ctx, n: int):
+    """observations that sweep 'observation.readout.times' with readout settings other than the defaults"""
+    r = ctx.rng("sweep")
+    cases = []
+    dets = ["ccd", "cmos", "mkid", "apd"]
+    r.shuffle(dets)
+    for i in range(n):
+        det = dets[i % 4]
+        sec = complete_for_run(det, gen_detector(r, det), r)
+        sec["characteristics"]["quantum_efficiency"] = 1.0
+        t0 = dy(r, 1, 3, 2)
+        start = r.choice([t0 / 2, t0 / 4, 0.125, 0.5])
+        vals, t = [], start
+        for _ in range(r.randrange(2, 4)):
+            t = t + dy(r, 0.25, 2, 2)
+            vals.append(t)
+        ro = {"times": [t0], "start_time": start}
+        if r.random() < 0.5:
+            ro["non_destructive"] = r.random() < 0.5
+        obs = {"with_dask": True if i % 3 != 2 else False, "readout": ro,
+               "parameters": [{"key": "observation.readout.times", "values": vals}]}
+        if r.random() < 0.4:
+            obs["pipeline_seed"] = r.randrange(1000)
+        pipe = {
+            "photon_collection": [{"name": "illumination", "func": "pyxel.models.photon_collection.illumination",
+                                   "enabled": True, "arguments": {"level": r.randrange(8, 400), "time_scale": 1.0}}],
+            "charge_generation": [{"name": "simple_conversion", "func": "pyxel.models.charge_generation.simple_conversion",
+                                   "enabled": True, "arguments": {"binomial_sampling": False}}],
+            "charge_collection": [{"name": "simple_collection", "func": "pyxel.models.charge_collection.simple_collection",
+                                   "enabled": True}],
+            "charge_measurement": [{"name": "simple_measurement",
+                                    "func": "pyxel.models.charge_measurement.simple_measurement", "enabled": True}],
+            "readout_electronics": [{"name": "simple_adc", "func": "pyxel.models.readout_electronics.simple_adc",
+                                     "enabled": True}],
+        }
+        doc = {"observation": obs, det + "_detector": sec, "pipeline": pipe}
+        cases.append(dict(k="sweeprun", doc=doc, det=det, kind="observation"))
+    return cases
+
+
+def run_sweeps(ctx: Ctx, cases):
+    obs = core.run_driver(ctx, "c12", cases, workers=min(8, max(1, len(cases))))
+    for c, o in zip(cases, obs):
+        if "loaded" not in o:
+            ctx.broken.append(Broken("correspondence", "sweep driver crashed", str(o)[:600], c))
+            continue
+        ctx.count("evaluations")
+        ctx.count("sweep_runs")
+        dask = bool(c["doc"]["observation"].get("with_dask"))
+        ctx.dist("sweep", ("dask" if dask else "sequential") + ("/ran" if o.get("ran") else "/raised"))
+        if not o["loaded"] or not o.get("ran"):
+            ctx.violations.append(Violation(
+                clause="sweep_run_equal", case=c, observed=o, expected="a valid sweep over the readout times loads and runs",
+                what=f"{c['det']}: observation sweeping observation.readout.times does not run: {o.get('exc')}: {o.get('msg')}",
+                sig=dict(clause="sweep_run_equal", aspect="does-not-run", dask=dask)))
+            continue
+        if dask and not o.get("same_points"):
+            ctx.violations.append(Violation(
+                clause="sweep_run_equal", case=c, observed=o,
+                expected="every point of the sweep = an Exposure built in Python with Readout(times=[t], start_time and "
+                         "non_destructive as written in the file)",
+                what=f"{c['det']}: dask sweep over observation.readout.times with readout "
+                     f"{c['doc']['observation']['readout']}: {o.get('diff')}",
+                sig=dict(clause="sweep_run_equal", aspect="point-differs-from-python-built-exposure", dask=dask)))
+        if not o.get("same_built"):
+            ctx.violations.append(Violation(
+                clause="sweep_run_equal", case=c, observed=o,
+                expected="run_mode on the loaded observation = run_mode on the same observation built in Python",
+                what=f"{c['det']}: sweep over observation.readout.times: loaded and Python-built observation differ in "
+                     f"{o.get('diff_built')}",
+                sig=dict(clause="sweep_run_equal", aspect="loaded-differs-from-built", dask=dask)))
+    return obs
+
+
 # ------------------------------------------------------------------------------------------ legs
 
 
@@ -769,7 +982,7 @@ def run_keys(ctx: Ctx, cases):
 
 
 def run_settings(ctx: Ctx, cases, tag="s"):
-    payloads = [dict(k="settings", doc=to_yaml_doc(c["doc"]), run=c["run"]) for c in cases]
+    payloads = [dict(k="settings", doc=to_yaml_doc(c["doc"]), run=c["run"], derive=c.get("derive")) for c in cases]
     obs = core.run_driver(ctx, "c12", payloads, workers=8)
     ctx.log("settings driver done")
     pairs = []
@@ -818,7 +1031,7 @@ def run_settings(ctx: Ctx, cases, tag="s"):
 
 def jcase(c):
     return dict(k="settings", doc=to_yaml_doc(c["doc"]), run=c["run"], det=c["det"], kind=c["kind"],
-                exprs=collect_exprs(c["doc"]))
+                exprs=collect_exprs(c["doc"]), derive=c.get("derive"))
 
 
 def collect_exprs(doc, path=""):
@@ -900,6 +1113,15 @@ def run(ctx: Ctx):
     ctx.log("settings leg done")
     for c, o, keys in sbad:
         ctx.violations.append(settings_violation(c, o, keys))
+    dm, dv = run_derived(ctx, sp)
+    for c, row in dv:
+        ctx.violations.append(derive_violation(c, row))
+    for c, row in dm:
+        ctx.broken.append(Broken("correspondence", "regenerated Readout.replace vs implementation",
+                                 f"replace({row[0]['changes']}) on {dict(row[1])} gives {row[3]}; the translated "
+                                 f"replace() says otherwise", dict(case=jcase(c), op=row[0], observed=row[4])))
+    sw = run_sweeps(ctx, gen_sweep_cases(ctx, ctx.budget(4, 16)))
+    ctx.log("derived-readout and sweep legs done")
 
     seen = {json.dumps([c["cls"], c["field"], c["path"], c["x"]], sort_keys=True) for c, _ in gp
             if c["x"]["t"] != "none"}
@@ -940,7 +1162,12 @@ def search(ctx: Ctx):
     sp, sbad = run_settings(ctx, scases, tag="ss")
     for c, o, keys in sbad:
         ctx.violations.append(settings_violation(c, o, keys))
-    ctx.cov["search_cases"] = len(gp) + len(sp)
+    dm, dv = run_derived(ctx, sp, tag="sd")
+    for c, row in dv:
+        ctx.violations.append(derive_violation(c, row))
+    sw = gen_sweep_cases(ctx, 8)
+    run_sweeps(ctx, sw)
+    ctx.cov["search_cases"] = len(gp) + len(sp) + len(sw)
 
 
 def replay(ctx: Ctx, rp: dict) -> int:
@@ -976,13 +1203,26 @@ def replay(ctx: Ctx, rp: dict) -> int:
         print("implementation now returns:", o)
         ok, ev, se = core.coq_eval(ctx, "replay", emit_keys_file([(case, o)]))
         bad = ok and core.parse_int_list(ev[1]) != []
+    elif k == "sweeprun":
+        o = core.run_driver(ctx, "c12", [case], workers=1)[0]
+        print("implementation now returns:", json.dumps(o)[:1500])
+        dask = bool(case["doc"]["observation"].get("with_dask"))
+        bad = not (o.get("loaded") and o.get("ran") and o.get("same_built") and (o.get("same_points") or not dask))
     else:
         c = dict(doc=restore_exprs(case["doc"], case.get("exprs", {})), run=case.get("run", False),
-                 det=case["det"], kind=case["kind"])
-        o = core.run_driver(ctx, "c12", [dict(k="settings", doc=case["doc"], run=c["run"])], workers=1)[0]
+                 det=case["det"], kind=case["kind"], derive=case.get("derive"))
+        o = core.run_driver(ctx, "c12", [dict(k="settings", doc=case["doc"], run=c["run"], derive=c["derive"])],
+                            workers=1)[0]
         print("implementation now returns:", json.dumps(o)[:1500])
         if not o.get("loaded"):
             bad = True
+        elif rp.get("clause") == "derived_keeps":
+            rows = derive_rows(c, o)
+            ok, ev, se = core.coq_eval(ctx, "replay", emit_derive_file(rows))
+            idx = core.parse_int_list(ev[1]) if ok else []
+            bad = ok and idx != []
+            for i in idx:
+                print("derived readout that breaks the specification:", derive_violation(c, rows[i]).what)
         else:
             ok, ev, se = core.coq_eval(ctx, "replay", emit_settings_file([(c, o)]))
             bad = (ok and core.parse_int_list(ev[0]) != []) or (c["run"] and not (o.get("run") or {}).get("same"))
